@@ -452,24 +452,29 @@ func init() {
 		ID: "C02",
 		Runs: func(tier string) []HarnessRun {
 			i := repoMod + "/internal"
-			return []HarnessRun{{Name: "snapshot-bookkeeping", Pkg: "", PkgName: "main", Files: []string{"main/c02.go", "main/c07.go", "main/c16.go"}, SymFiles: []string{"main/tmp_sym.go"}, NatFiles: []string{"main/tmp_native.go"},
-				Entry: "verifHarness_C02_snapshot", Params: map[string]int{"entries": p4(tier, 3, 4)}, Unwind: 10, NoReplay: true,
-				Redirect: map[string]string{
-					"(*" + i + "/ircserver.IRCServer).Unmarshal":       "verifStub_Unmarshal",
-					"(*" + i + "/ircserver.IRCServer).Marshal":         "verifStub_Marshal",
-					"(*" + repoMod + ".FSM).applyRobustMessage":        "verifStub_foldEntry",
-					"(*" + i + "/outputstream.OutputStream).Delete":    "verifStub_outDelete",
-				}}}
+			redir := map[string]string{
+				"(*" + i + "/ircserver.IRCServer).Unmarshal":    "verifStub_Unmarshal",
+				"(*" + i + "/ircserver.IRCServer).Marshal":      "verifStub_Marshal",
+				"(*" + repoMod + ".FSM).applyRobustMessage":     "verifStub_foldEntry",
+				"(*" + i + "/outputstream.OutputStream).Delete": "verifStub_outDelete",
+			}
+			return []HarnessRun{
+				{Name: "snapshot-bookkeeping", Pkg: "", PkgName: "main", Files: []string{"main/c02.go", "main/c07.go", "main/c16.go"}, SymFiles: []string{"main/tmp_sym.go"}, NatFiles: []string{"main/tmp_native.go"},
+					Entry: "verifHarness_C02_snapshot", Params: map[string]int{"entries": p4(tier, 3, 4)}, Unwind: 10, NoReplay: true, Redirect: redir},
+				{Name: "persist-restore", Pkg: "", PkgName: "main", Files: []string{"main/c02.go", "main/c02p.go", "main/c07.go", "main/c16.go"}, SymFiles: []string{"main/tmp_sym.go"}, NatFiles: []string{"main/tmp_native.go"},
+					Entry: "verifHarness_C02_persist_restore", Params: map[string]int{"entries": p4(tier, 3, 4)}, Unwind: 12, NoReplay: true, Redirect: redir},
+			}
 		},
 		Assumptions: []string{
 			"the IRC state is abstracted to the set of entries it folds (ghost carried by stubs of Unmarshal / applyRobustMessage / Marshal); the content of the serialized state is C03's obligation, determinism of the fold C01's",
 			"the log copy is the real LevelDBStore over the LevelDB model; entries are protobuf-encoded (abstract codec)",
 			"pre-state: bookkeeping invariant — the state filed under (first stored index - 1) folds exactly the applied entries that are not stored; stored entries at increasing raft indexes with arbitrary gaps and arbitrary timestamps; arbitrary compaction time and session expiration",
 			"induction: after the snapshot one more entry is applied at an arbitrary later index and the lookup key of the next snapshot is examined",
+			"persist-restore run: the sink records one chunk per Write; a fresh FSM decodes the chunks with the real decodeProtobuf; bufio.Reader/io.ReadFull are modelled over the chunk list, base64 and protobuf as abstract codecs",
 		},
 		Bounds:    func(tier string) map[string]interface{} { return map[string]interface{}{"stored_entries": p4(tier, 3, 4), "snapshots": "one per obligation (inductive step)"} },
-		Outside:   []string{"Persist/Restore byte streams (bufio/io readers are not encoded), failed snapshot writes, process restarts", "JSON-format snapshots, robustirc-canary", "real LevelDB and file snapshot store behaviour", "native replay (repository methods are redirected): counterexamples are solver models; the reported defect was reproduced natively at design time (§11)"},
-		Functions: []string{"main.(*FSM).Snapshot", "raftstore.(*LevelDBStore).FirstIndex/LastIndex/GetBulkIterator/DeleteRange/GetLog/StoreLogProto", "robust.NewMessageFromBytes", "robust.(*Message).Timestamp"},
+		Outside:   []string{"FSM.Restore's set-up around decodeProtobuf (closing and re-creating the log copy and the output stream on disk), failed snapshot writes, process restarts", "JSON-format snapshots, robustirc-canary", "reads that are not aligned with the chunks Persist wrote (the snapshot format is length-prefixed; the chunk reader reports anything else as unsupported)", "real LevelDB and file snapshot store behaviour", "native replay (repository methods are redirected): counterexamples are solver models; the reported defect was reproduced natively at design time (§11)"},
+		Functions: []string{"main.(*FSM).Snapshot", "main.(*robustSnapshot).Persist", "main.writeLenPrefixed", "main.(*FSM).decodeProtobuf", "main.(*FSM).applyProto", "raftstore.(*LevelDBStore).FirstIndex/LastIndex/GetBulkIterator/DeleteRange/GetLog/StoreLogProto/WriteBatch", "robust.NewMessageFromBytes", "robust.(*Message).Timestamp"},
 		Rule:      "one case per number of stored entries and feasible pattern of old/new timestamps; non-trivial when the post-snapshot obligations are evaluated",
 	})
 	registerCheck(&CheckDef{
